@@ -360,6 +360,13 @@ class ThreadPoolServer(Server):
             self._active_connection_queue.put(None)
         for w in self.workers:
             w.join()
+        # terminate the clients that are still being served
+        for fd in list(self.fd_to_conn):
+            self._remove_from_inactive_connection(fd)
+            try:
+                self._drop_connection(fd)
+            except Exception:
+                self.logger.exception("error closing the connection with fd %d", fd)
 
     def _remove_from_inactive_connection(self, fd):
         '''removes a connection from the set of inactive ones'''
